@@ -310,3 +310,94 @@ def check_type(ti: int, how: int) -> bool:
     elif exc != 'meta':
         LAST_DIFF = ('unknown type accepted', ty); return False
     return True
+
+
+class SkipGen(xtuml.IntegerGenerator):
+    """a user generator derived from the library's own: overrides the public next() to step over reserved ids"""
+    def __init__(self, reserved):
+        xtuml.IntegerGenerator.__init__(self)
+        self.reserved = reserved
+        self.out = []
+
+    def next(self):
+        v = xtuml.IntegerGenerator.next(self)
+        while v == self.reserved:
+            v = xtuml.IntegerGenerator.next(self)
+        self.out.append(v)
+        return v
+
+
+def check_subclass(res: int, n: int) -> bool:
+    """
+    pre: 1 <= res <= 4 and 1 <= n <= 4
+    post: POST(_)
+    """
+    # "every defaulted unique id comes from the metamodel's generator": a generator that specialises next()
+    global LAST_DIFF
+    n = cs(n, 1, 4)
+    g = SkipGen(res)
+    m = xtuml.MetaModel(g)
+    m.define_class('Q', [('Id', 'unique_id'), ('n', 'integer')])
+    ids = [m.new('Q').Id for _ in range(n)]
+    case('subclass', n)
+    exp = [v for v in range(1, n + 2) if v != res][:n]
+    for got, e in zip(ids, exp):
+        if got != e:
+            LAST_DIFF = ('defaulted ids are not those the metamodel\'s generator hands out through its next()', ids, exp, g.out); return False
+    if len(g.out) != n:
+        LAST_DIFF = ('the generator\'s next() was not used for every defaulted id', ids, g.out); return False
+    return True
+
+
+EDITS = [('insert', 0, 'x', 'integer'), ('insert', 1, 'x', 'string'), ('insert', 2, 'x', 'boolean'), ('append', None, 'x', 'real'),
+         ('insert', 1, 'x', 'unique_id'), ('delete', None, 'i', None), ('insert', 1, 'x', 'blob'), ('append', None, 'x', 'blob')]
+
+
+def check_edit(e: int, before: int, pa: int, pb: int) -> bool:
+    """
+    pre: 0 <= e < 8 and 0 <= before <= 2
+    post: POST(_)
+    """
+    # creations BEFORE an attribute is inserted / appended / deleted must not freeze the attribute layout: afterwards
+    # the new attribute gets the default of its type, positional arguments follow the edited attribute order, an unknown type is rejected
+    global LAST_DIFF
+    e = cs(e, 0, 7); before = cs(before, 0, 2)
+    kind, idx, name, ty = EDITS[e]
+    m = xtuml.MetaModel(xtuml.IntegerGenerator())
+    mc = m.define_class('Q', [('i', 'integer'), ('s', 'string')])
+    for _ in range(before):
+        m.new('Q', 7)
+    attrs = [('i', 'integer'), ('s', 'string')]
+    if kind == 'insert':
+        mc.insert_attribute(idx, name, ty); attrs.insert(idx, (name, ty))
+    elif kind == 'append':
+        mc.append_attribute(name, ty); attrs.append((name, ty))
+    else:
+        mc.delete_attribute(name); attrs = [a for a in attrs if a[0] != name]
+    case('edit', e, before)
+    defaults = {'integer': 0, 'string': '', 'boolean': False, 'real': 0.0}
+    try:
+        q0 = m.new('Q')
+        q1 = m.new('Q', pa)
+    except xtuml.MetaException:
+        if ty == 'blob':
+            return True
+        LAST_DIFF = ('creation rejected after a legitimate attribute edit', EDITS[e], before); return False
+    if ty == 'blob':
+        LAST_DIFF = ('attribute of unknown type accepted after the edit', EDITS[e], before); return False
+    for n, (an, at) in enumerate(attrs):
+        try:
+            v0, v1 = getattr(q0, an), getattr(q1, an)
+        except AttributeError:
+            LAST_DIFF = ('attribute added after the first creation has no default', an, EDITS[e], before); return False
+        if at == 'unique_id':
+            if v0 is None or v0 == 0 or (n != 0 and (v1 is None or v1 == 0 or v1 == v0)):
+                LAST_DIFF = ('defaulted id after the edit', an, EDITS[e], before); return False
+        else:
+            if not same(v0, defaults[at]):
+                LAST_DIFF = ('default after the edit', an, EDITS[e], before); return False
+            if n != 0 and not same(v1, defaults[at]):
+                LAST_DIFF = ('default after the edit (second creation)', an, EDITS[e], before); return False
+        if n == 0 and not (v1 == pa):
+            LAST_DIFF = ('the first positional argument did not go to the first attribute of the edited order', an, EDITS[e], before); return False
+    return True
